@@ -391,15 +391,15 @@ func (r *resolver) applyDeviation(y *Module, d *Deviation) error {
 	}
 	if d.Delete != nil {
 		if d.Delete.units != "" {
-			if hasType.Units() == d.Delete.units {
+			if hasType.Units() != d.Delete.units {
 				return fmt.Errorf("cannot delete units '%s' != '%s' on %s",
 					d.Delete.units, hasType.Units(), d.Ident())
 			}
 			hasType.setUnits("")
 		}
 		if d.Delete.HasDefault() {
-			if hasType.DefaultValue() == d.Delete.DefaultValue() {
-				return fmt.Errorf("cannot delete units '%s' != '%s' on %s",
+			if !sameDefault(hasType.DefaultValue(), d.Delete.Default()) {
+				return fmt.Errorf("cannot delete default '%s' != '%s' on %s",
 					d.Delete.Default(), hasType.DefaultValue(),
 					d.Ident())
 			}
@@ -440,6 +440,28 @@ func (r *resolver) applyDeviation(y *Module, d *Deviation) error {
 
 	}
 	return nil
+}
+
+// sameDefault: the default a leaf (one string) or leaf-list (strings) has is the one named.
+func sameDefault(has interface{}, named []string) bool {
+	var existing []string
+	switch x := has.(type) {
+	case string:
+		existing = []string{x}
+	case []string:
+		existing = x
+	default:
+		return false
+	}
+	if len(existing) != len(named) {
+		return false
+	}
+	for i := range existing {
+		if existing[i] != named[i] {
+			return false
+		}
+	}
+	return true
 }
 
 func isArrayStringEqual(a []string, b []string) bool {
